@@ -13,12 +13,51 @@ import (
 // CommitAgent: commitment / vesting / staking / reward-claim users.
 type CommitAgent struct {
 	baseAgent
+	journey     int // step of the staker's journey in progress (0 = none)
+	journeyUser *Account
+}
+
+// stakerJourney: one account goes through the life of a staker block by block - stake, withdraw the
+// staking rewards, commit half of its claimed EdenB, then reduce the stake in several steps (each
+// reduction burns EdenB in proportion; the burn takes the claimed bucket first and the committed one
+// after it, with the reward hooks of the EdenB "validator" around it). Random traffic rarely lines
+// these up on one account.
+func (a *CommitAgent) stakerJourney(s *Sim) {
+	r := a.rng
+	if a.journey == 0 {
+		if r.Float64() >= 0.03*s.Cfg.rate("commit") {
+			return
+		}
+		a.journeyUser = s.user(r)
+		a.journey = 1
+		s.Stats.Probe("staker_journey_started")
+	}
+	u := a.journeyUser
+	val := s.W.ValAddr.String()
+	cm := s.N0.App.CommitmentKeeper.GetCommitments(s.Ctx(), u.Addr)
+	switch a.journey {
+	case 1:
+		s.SendTx(u, "commit/journey_stake", &commitmenttypes.MsgStake{Creator: u.Addr.String(), Amount: logUniform(r, 1e6, 1e9), Asset: DenomELYS, ValidatorAddress: val})
+	case 2:
+		s.SendTx(u, "commit/journey_withdraw_all", &estakingtypes.MsgWithdrawAllRewards{DelegatorAddress: u.Addr.String()})
+	case 3:
+		if x := cm.GetClaimedForDenom(DenomEDENB); x.GT(sdkmath.OneInt()) {
+			s.SendTx(u, "commit/journey_commit_edenb", &commitmenttypes.MsgCommitClaimedRewards{Creator: u.Addr.String(), Amount: x.QuoRaw(int64(2 + r.IntN(3))), Denom: DenomEDENB})
+		}
+	default:
+		s.SendTx(u, "commit/journey_unstake", &commitmenttypes.MsgUnstake{Creator: u.Addr.String(), Amount: logUniform(r, 1e4, 1e7), Asset: DenomELYS, ValidatorAddress: val})
+	}
+	a.journey++
+	if a.journey > 7 {
+		a.journey = 0
+	}
 }
 
 func (a *CommitAgent) Step(s *Sim) {
 	r := a.rng
 	rate := s.Cfg.rate("commit")
 	ctx := s.Ctx()
+	a.stakerJourney(s)
 	n := 0
 	for r.Float64() < rate && n < 4 {
 		n++
